@@ -135,8 +135,27 @@ ROWS = {
 COPY_COUNT = {
     "dashu_int::buffer::Buffer::clone_from_slice": lambda c: is_len_of(c, ('arg', 2)),
     "dashu_int::buffer::Buffer::push_slice": lambda c: is_len_of(c, ('arg', 2)),
-    "<dashu_int::buffer::Buffer as core::clone::Clone>::clone_from": lambda c: strip_bb(c) == ('place', ('arg', 2), ('*', '.len')),
+    "<dashu_int::buffer::Buffer as core::clone::Clone>::clone_from": lambda c: strip_bb(c) == ('place', ('arg', 2), ('*', '.len')) or _len_of_buffer_deref(c, ('arg', 2)),
 }
+def _len_of_buffer_deref(c, buf):
+    """`(&*buf).len()` where buf: &Buffer — Deref yields from_raw_parts(ptr, buf.len) (R17.5 struct row), so this is buf.len"""
+    c = strip_bb(c)
+    if c[0] == 'call' and c[1] == "core::slice::<impl [T]>::len" and c[2]:
+        x = strip_bb(c[2][0])
+        while isinstance(x, tuple) and x[0] in ('ref', 'refmut'):
+            x = strip_bb(x[1])
+        if isinstance(x, tuple) and x[0] == 'place' and x[2] == ('*',):
+            x = strip_bb(x[1])
+        if isinstance(x, tuple) and x[0] == 'call' and x[1].endswith("Buffer as core::ops::deref::Deref>::deref") and x[2]:
+            y = strip_bb(x[2][0])
+            while isinstance(y, tuple) and y[0] in ('ref', 'refmut'):
+                y = strip_bb(y[1])
+            if isinstance(y, tuple) and y[0] == 'place' and y[2] == ('*',):
+                y = strip_bb(y[1])
+            return y == buf
+    return False
+
+
 RAW_OPS = {"core::ptr::write", "core::ptr::read", "core::ptr::copy", "core::ptr::copy_nonoverlapping",
            "core::ptr::mut_ptr::<impl *mut T>::add", "core::ptr::mut_ptr::<impl *mut T>::sub",
            "core::slice::raw::from_raw_parts", "core::slice::raw::from_raw_parts_mut", "alloc::alloc::realloc",
@@ -911,6 +930,8 @@ def run(res, programs, tier):
     for P in programs:
         if "dashu_int" not in P.units:
             continue
+        from .c17 import storage_view
+        P = storage_view(P)
         _r17_5(res, P, P.name)
         _r17_6(res, P, P.name)
         _r17_7(res, P, P.name)
